@@ -76,11 +76,36 @@ def shim_decode(data):
 tornado.web.gzip = _ShimGzipModule
 tornado.web.GZipContentEncoding.MIN_LENGTH = 3
 
-CT_POOL = ("text/html; charset=UTF-8", "application/json; charset=UTF-8", "image/png",
-           "application/javascript", "text/x", "application/octet-stream")
-COMPRESSIBLE = (True, True, False, True, True, False)    # statement: text/* and the whitelist
+# (content type, compressible per the statement: the media type before any ';' parameter is in the
+# text/ family or EXACTLY one of the whitelisted types; None = either decision allowed)
+_CT = (
+    ("text/html; charset=UTF-8", True),
+    ("application/json; charset=UTF-8", True),
+    ("image/png", False),
+    ("application/javascript", True),
+    ("text/x", True),
+    ("application/octet-stream", False),
+    # near misses: merely START WITH (or extend) a whitelisted name / the text family
+    ("application/json-seq", False),
+    ("application/xml-dtd", False),
+    ("application/jsonp", False),
+    ("application/javascriptx", False),
+    ("application/xhtml+xmlx; charset=UTF-8", False),
+    ("texts/plain", False),
+    ("text", False),
+    ("xapplication/json", False),
+    ("application/jso", False),
+    # whitelisted types with parameters
+    ("application/xml;charset=x", True),
+    ("image/svg+xml ; charset=UTF-8", None),       # space before ';': either (tornado compares 'image/svg+xml ')
+    # case variants: media types are case-insensitive, tornado compares case-sensitively: either
+    ("Application/JSON", None),
+    ("TEXT/plain", None),
+)
+CT_POOL = tuple(c for c, _ in _CT)
+COMPRESSIBLE = tuple(v for _, v in _CT)
 AE_PREFIX = (None, "gz", "x, gz", "defla")
-DEC_CT = (0, 2, 1, 3, 4, 5)     # h_gzip_decide: index 0,1 = one compressible + one non-compressible type
+DEC_CT = (0, 2, 6, 1, 3, 4, 5) + tuple(range(7, len(_CT)))     # h_gzip_decide: index 0,1 = one compressible + one non-compressible type
 _STUBS = ["tornado.web.gzip.GzipFile replaced by a tagged invertible pure-Python codec (zlib is C)",
           "GZipContentEncoding.MIN_LENGTH patched 1024 -> 3", "FakeStream + virtual loop; logging "
           "disabled; fixed time.time()", "requests 'GET /a HTTP/1.1' and 'HEAD /a HTTP/1.1' (same headers, same program, two connections) "
@@ -143,7 +168,9 @@ def _check(method, mentions_gzip, ct, preset, prog, wire, closed):
         assert b"cookie" in vary, "handler's Vary value lost"
     if encoded:
         reached("encoded")
-        assert COMPRESSIBLE[ct], "compressed a non-compressible type %s" % CT_POOL[ct]
+        assert COMPRESSIBLE[ct] is not False, "compressed a non-compressible type %r" % CT_POOL[ct]
+        if ";" in CT_POOL[ct] and COMPRESSIBLE[ct]:
+            reached("encoded_type_with_parameters")
         assert mentions_gzip, "compressed although Accept-Encoding does not mention gzip"
         assert preset != 1, "compressed over an existing Content-Encoding"
     else:
@@ -199,7 +226,7 @@ def pre_stream(ct: int, prog: List[Tuple[int, int]]) -> bool:
 @harness(
     pre=pre_stream,
     quick=dict(T=3, N=2, A=3, timeout=150, reach_timeout=60),
-    thorough=dict(T=6, N=3, A=4, timeout=1500, reach_timeout=90),
+    thorough=dict(T=6, N=3, A=4, timeout=1500, reach_timeout=90),   # T: first T pool types
     nshards=dict(quick=9, thorough=24),
     reach=["encoded", "identity", "encoded_streamed", "encoded_with_content_length",
            "head_of_encoded", "head_content_length_checked"],
@@ -227,8 +254,8 @@ def pre_decide(ae: int, o1: int, o2: int, ct: int, preset: int, k: int, streamed
 
 @harness(
     pre=pre_decide,
-    quick=dict(T=2, timeout=200, reach_timeout=150),
-    thorough=dict(T=6, timeout=1500, reach_timeout=90),
+    quick=dict(T=3, timeout=200, reach_timeout=150),
+    thorough=dict(T=len(_CT), timeout=1500, reach_timeout=90),
     nshards=dict(quick=12, thorough=12),
     reach=["encoded", "identity", "gzip_mentioned_by_solver", "head_of_encoded"],
     units=["web.GZipContentEncoding.__init__", "web.GZipContentEncoding._compressible_type",
@@ -256,6 +283,40 @@ def h_gzip_decide(ae: int, o1: int, o2: int, ct: int, preset: int, k: int, strea
     # the HEAD request with the same headers / program: same head, no body
     wire_h, closed_h = _serve("HEAD", value, ct, preset, prog)
     _check("HEAD", mentions, ct, preset, prog, wire_h, closed_h)
+    _check_head_equals_get(wire, closed, wire_h, closed_h)
+
+
+def pre_types(ct: int, preset: int, k: int, streamed: bool, ae: int) -> bool:
+    return (0 <= ct < len(_CT) and 0 <= preset <= 2 and 2 <= k <= 3 and 0 <= ae <= 1
+            and in_shard(ct))
+
+
+@harness(
+    pre=pre_types,
+    quick=dict(timeout=150, reach_timeout=60),
+    thorough=dict(timeout=600, reach_timeout=60),
+    nshards=dict(quick=len(_CT), thorough=len(_CT)),
+    reach=["encoded", "identity", "near_miss_not_encoded", "encoded_type_with_parameters", "head_of_encoded"],
+    units=["web.GZipContentEncoding._compressible_type", "web.GZipContentEncoding.transform_first_chunk",
+           "web.RequestHandler.flush/finish"],
+    stubs=_STUBS + ["Accept-Encoding pooled {'gzip', 'deflate, gzip;q=0.5'}; Content-Type from the full pool: "
+                    "whitelist members (plain, with '; charset', with odd spacing), text/*, non-members, and "
+                    "NEAR MISSES that start with / extend a whitelisted name or the text family, case variants"],
+    outside=["real DEFLATE", "content types outside the pool (the decision code only tests startswith('text/') "
+             "and set membership of the part before ';')"],
+)
+def h_gzip_types(ct: int, preset: int, k: int, streamed: bool, ae: int):
+    """Compression is applied ONLY to compressible media types: exact whitelist match of the type
+    before any ';' parameters, or the text/ family - for every type in the pool, buffered and streamed,
+    below / at the size threshold, with pre-set Content-Encoding / Vary; GET and HEAD agree."""
+    value = ("gzip", "deflate, gzip;q=0.5")[ae]
+    prog = [(W, k), (FL, 0)] if streamed else [(W, k)]
+    wire, closed = _serve("GET", value, ct, preset, prog)
+    if COMPRESSIBLE[ct] is False and ct >= 6:
+        reached("near_miss_not_encoded")
+    _check("GET", True, ct, preset, prog, wire, closed)
+    wire_h, closed_h = _serve("HEAD", value, ct, preset, prog)
+    _check("HEAD", True, ct, preset, prog, wire_h, closed_h)
     _check_head_equals_get(wire, closed, wire_h, closed_h)
 
 
